@@ -198,7 +198,7 @@ where
 {
     let mut results = Vec::new();
 
-    for chunk in items.chunks(chunk_size) {
+    for chunk in items.chunks(chunk_size.max(1)) {
         let chunk_results = process_chunk(chunk.to_vec())?;
         results.extend(chunk_results);
     }
